@@ -26,6 +26,7 @@ func init() {
 			{ID: "C04.3", Doc: "at most once per address: atomic test-and-set under one key encoding", Floor: 3, Run: c04r3},
 			{ID: "C04.4", Doc: "per-query context cancelled on stop", Floor: 3, Run: c04r4},
 			{ID: "C04.5", Doc: "built-in lookups install the server node filter", Floor: 5, Run: c04r5},
+			{ID: "C04.7", Doc: "the filter sees what was reported: a contact taken from a reply keeps the ID it was reported under, unconditionally", Floor: 1, Run: c04r7},
 			{ID: "C04.6", Doc: "the configured Alpha and K are replaced by a default only when unset", Floor: 2, Run: c04r6},
 		},
 	})
@@ -533,4 +534,53 @@ func (w *World) liftSyncHelper(f *ssa.Function) *ssa.Function {
 		f = es[0].Caller
 	}
 	return f
+}
+
+// c04r7: the node filter decides on (address, reported ID). The conversion from a reply's
+// NodeInfo to the lookup's candidate type must therefore carry the reported ID over on every path:
+// a conversion that drops some IDs (say the all-zero one) turns a candidate the filter would reject
+// into an ID-less one it lets through.
+func c04r7(w *World, rr *RuleRun) {
+	idF := w.P.Field("types", "AddrMaybeId", "Id")
+	niID := w.P.Field("krpc", "NodeInfo", "ID")
+	n := 0
+	for _, f := range w.P.LibFuncs {
+		if f.Pkg == nil || f.Pkg.Pkg.Name() != "types" {
+			continue
+		}
+		takesNodeInfo := false
+		for _, p := range f.Params {
+			if strings.Contains(p.Type().String(), "krpc.NodeInfo") {
+				takesNodeInfo = true
+			}
+		}
+		if !takesNodeInfo {
+			continue
+		}
+		for _, ins := range w.FieldWrites([]*ssa.Function{f}, idF) {
+			st, ok := ins.(*ssa.Store)
+			if !ok {
+				continue
+			}
+			n++
+			v := w.TS.Of(st.Val)
+			fromReported := hasFieldAnywhere(v, niID)
+			rr.At(w, ins, "the candidate's ID is the reported ID", fromReported, "Id ← "+trunc(v.String(), 100))
+			w.Require(rr, ins, "the reported ID is carried over unconditionally", func(alt *Alt) (bool, string) {
+				cond := ""
+				for k, t := range alt.terms {
+					if strings.HasPrefix(k, "b:") && t != nil && hasFieldAnywhere(t, niID) {
+						cond = k
+					}
+				}
+				if cond == "" {
+					return true, "no condition on the reported ID"
+				}
+				return false, "the ID is kept only under a condition on its value: " + trunc(cond, 120)
+			})
+		}
+	}
+	if n == 0 {
+		rr.Oblige("types", "the candidate's ID is the reported ID", "-", false, "no conversion from krpc.NodeInfo that sets AddrMaybeId.Id")
+	}
 }
